@@ -255,7 +255,17 @@ def rule_path(ctx: Ctx) -> RuleReport:
             else:
                 rewritten = True
                 rep.fail(Finding("C09-PATH", SZ, SANITISER, "containment by bare prefix: " + anorm(n, sj.node), f"`{short(n, 60)}` accepts every path that merely *starts with the text* of the extraction directory: the member '../<dir>.bak/evil.txt' lands in a sibling directory whose name begins like the extraction directory, outside of it", line=n.lineno))
-    r = compare_function(sj.node, tmpl)
+    # os.path.sep is os.sep
+    import copy
+
+    class _Sep(ast.NodeTransformer):
+        def visit_Attribute(self, n):
+            self.generic_visit(n)
+            if n.attr == "sep" and isinstance(n.value, ast.Attribute) and n.value.attr == "path" and isinstance(n.value.value, ast.Name) and n.value.value.id == "os":
+                return ast.copy_location(ast.Attribute(value=ast.Name(id="os", ctx=ast.Load()), attr="sep", ctx=n.ctx), n)
+            return n
+
+    r = compare_function(ast.fix_missing_locations(_Sep().visit(copy.deepcopy(sj.node))), tmpl)
     if rewritten:
         pass
     elif r == "equal":
